@@ -462,8 +462,10 @@ class TrimWhitespaces(FullAstVisitor):
             if len(node.args.arguments) == 1 and not node.args.kwargs:
                 arg = node.args.arguments[0]
                 if isinstance(arg, mparser.ArrayNode):
-                    if not arg.lbracket.whitespaces or not arg.lbracket.whitespaces.value.strip():
-                        # files([...]) -> files(...)
+                    # files([...]) -> files(...), unless that would drop a comment
+                    # or a line continuation attached to the brackets
+                    dropped = [arg.lbracket, arg.rbracket, arg, node.args, *node.args.commas]
+                    if not any(n.whitespaces and n.whitespaces.value.strip() for n in dropped):
                         node.args = arg.args
 
         super().visit_FunctionNode(node)
